@@ -61,9 +61,37 @@ var m6Fields = map[string][]string{
 	"dataStore": {"data"}, // replacing the whole keyspace (flush)
 }
 
-// m6Exempt: functions whose stores are not mutations by commands, with the reason.
-var m6Exempt = map[string]string{
-	"(*dataStore).load": "the loader installs the state read from disk at start-up; there is nothing to save or to version",
+// loaderExempt: functions whose stores are not mutations by commands — the snapshot loader and the helpers it is split
+// into install the state read from disk at start-up; there is nothing to save or to version. They are recognised by
+// what they do, not by name: they decode the snapshot stream (call (*gob.Decoder).Decode or receive the decoder).
+const loaderExemptWhy = "the loader installs the state read from disk at start-up; there is nothing to save or to version"
+
+func isGobDecoder(t types.Type) bool {
+	n, ok := deref(t).(*types.Named)
+	return ok && n.Obj().Name() == "Decoder" && n.Obj().Pkg() != nil && n.Obj().Pkg().Path() == "encoding/gob"
+}
+
+var loaderMemo = map[*ssa.Function]bool{}
+
+func loaderExempt(fn *ssa.Function) bool {
+	if v, ok := loaderMemo[fn]; ok {
+		return v
+	}
+	r := false
+	for _, p := range fn.Params {
+		if isGobDecoder(p.Type()) {
+			r = true
+		}
+	}
+	for _, in := range instrsOf(fn) {
+		if call, ok := in.(ssa.CallInstruction); ok {
+			if g := call.Common().StaticCallee(); g != nil && g.Name() == "Decode" && g.Signature.Recv() != nil && isGobDecoder(g.Signature.Recv().Type()) {
+				r = true
+			}
+		}
+	}
+	loaderMemo[fn] = r
+	return r
 }
 
 // isFreshDeep extends isFresh to objects reachable only through fields of a fresh object.
@@ -199,7 +227,7 @@ func (m *Models) Muts() *MutModel {
 			mm.dead = append(mm.dead, fnName(fn))
 			continue
 		}
-		if _, ex := m6Exempt[fnName(fn)]; ex {
+		if loaderExempt(fn) {
 			continue
 		}
 		for _, in := range instrsOf(fn) {
@@ -370,6 +398,31 @@ func returnsFreshAlloc(fn *ssa.Function) bool {
 	return n > 0
 }
 
+// returnsFreshObject: as returnsFreshAlloc, also when the object comes from a constructor (`dup := newRedisDict()`).
+func returnsFreshObject(fn *ssa.Function, depth int) bool {
+	if fn == nil || len(fn.Blocks) == 0 || depth > 3 {
+		return false
+	}
+	n := 0
+	for _, b := range fn.Blocks {
+		ret, ok := b.Instrs[len(b.Instrs)-1].(*ssa.Return)
+		if !ok || len(ret.Results) == 0 {
+			continue
+		}
+		n++
+		for _, leaf := range phiLeaves(ret.Results[0], map[ssa.Value]bool{}) {
+			if isFresh(leaf) {
+				continue
+			}
+			if call, ok := leaf.(*ssa.Call); ok && returnsFreshObject(call.Call.StaticCallee(), depth+1) {
+				continue
+			}
+			return false
+		}
+	}
+	return n > 0
+}
+
 // ---------------------------------------------------------------- events and the path rule
 
 // Event decides whether an instruction is a covering event (directly).
@@ -390,6 +443,10 @@ type CoverModel struct {
 	assumeLoopsRun bool
 	// pruneEdge: extra, site-specific infeasible edges
 	pruneEdge func(a, b *ssa.BasicBlock) bool
+	// resultPrune: edges that are infeasible because of what the call at resultCall returned when it performed the
+	// mutation; valid only until the call is executed again (the next loop iteration gets new results)
+	resultPrune func(a, b *ssa.BasicBlock) bool
+	resultCall  ssa.Instruction
 }
 
 // loopExitEdge: a->b leaves a loop headed at a whose body performs E on every iteration.
@@ -441,6 +498,48 @@ func (cm *CoverModel) loopExitEdge(a, b *ssa.BasicBlock) bool {
 
 // nilResultsAfter: result indexes of fn that are certainly nil on every return reachable from `in`
 // (the mutation and an error result exclude each other).
+// boolResultsAfter: boolean results of fn that have one fixed value on every return reachable from `in` (e.g. the
+// wrongType flag of a helper is false whenever the helper created the key).
+func boolResultsAfter(in ssa.Instruction) map[int]bool {
+	fn := in.Parent()
+	out := map[int]bool{}
+	res := fn.Signature.Results()
+	for i := 0; i < res.Len(); i++ {
+		bt, ok := res.At(i).Type().Underlying().(*types.Basic)
+		if !ok || bt.Kind() != types.Bool {
+			continue
+		}
+		n, val, same := 0, false, true
+		for b := range reachableFrom(in.Block(), nil) {
+			ret, ok := b.Instrs[len(b.Instrs)-1].(*ssa.Return)
+			if !ok || i >= len(ret.Results) {
+				continue
+			}
+			v := ret.Results[i]
+			var t, known bool
+			if k, isC := v.(*ssa.Const); isC && k.Value != nil {
+				t, known = k.Value.String() == "true", true
+			} else if tv, ok := dominatingTruths(b)[v]; ok {
+				t, known = tv, true
+			}
+			if !known {
+				same = false
+				break
+			}
+			if n > 0 && t != val {
+				same = false
+				break
+			}
+			val = t
+			n++
+		}
+		if same && n > 0 {
+			out[i] = val
+		}
+	}
+	return out
+}
+
 func nilResultsAfter(in ssa.Instruction) map[int]bool {
 	fn := in.Parent()
 	out := map[int]bool{}
@@ -460,8 +559,8 @@ func nilResultsAfter(in ssa.Instruction) map[int]bool {
 			}
 			n++
 			v := ret.Results[i]
-			if isNilConst(v) || knownNilIn(v, b) {
-				continue
+			if isNilConst(v) || knownNilIn(v, b) || knownNilIn(v, in.Block()) {
+				continue // (an SSA value tested nil before the mutation is still nil at the return)
 			}
 			all = false
 		}
@@ -586,11 +685,45 @@ func (cm *CoverModel) eventAt(in ssa.Instruction) bool {
 // without executing E?
 func (cm *CoverModel) exitReachableWithoutE(fn *ssa.Function, b *ssa.BasicBlock, idx int) bool {
 	type pt struct {
-		b *ssa.BasicBlock
-		i int
+		b  *ssa.BasicBlock
+		i  int
+		ph int
 	}
-	seen := map[*ssa.BasicBlock]bool{}
-	stack := []pt{{b, idx}}
+	seenPh := [2]map[*ssa.BasicBlock]bool{{}, {}}
+	stack := []pt{{b, idx, 0}}
+	// branch decisions that every path to the start point has already taken (dominating edges): a later branch on the
+	// same condition value cannot go the other way (two variants merged behind a boolean parameter)
+	known := dominatingTruths(b)
+	// … unless the condition can be evaluated again after the start point (a loop condition: same SSA value, new
+	// outcome in the next iteration)
+	if len(known) > 0 {
+		after := reachableFrom(b, nil)
+		for cond := range known {
+			if ins, ok := cond.(ssa.Instruction); ok && ins.Block() != nil && after[ins.Block()] {
+				delete(known, cond)
+			}
+		}
+	}
+	contradicts := func(from, to *ssa.BasicBlock) bool {
+		ifi, ok := from.Instrs[len(from.Instrs)-1].(*ssa.If)
+		if !ok || len(known) == 0 {
+			return false
+		}
+		cond, neg := ifi.Cond, false
+		for {
+			u, isU := cond.(*ssa.UnOp)
+			if !isU || u.Op != token.NOT {
+				break
+			}
+			cond, neg = u.X, !neg
+		}
+		t, ok := known[cond]
+		if !ok {
+			return false
+		}
+		takenTrue := (from.Succs[0] == to) != neg
+		return takenTrue != t
+	}
 	for len(stack) > 0 {
 		cur := stack[len(stack)-1]
 		stack = stack[:len(stack)-1]
@@ -609,9 +742,22 @@ func (cm *CoverModel) exitReachableWithoutE(fn *ssa.Function, b *ssa.BasicBlock,
 			continue
 		}
 		for _, s := range cur.b.Succs {
-			if !seen[s] && !cm.notFoundEdge(cur.b, s) && !cm.loopExitEdge(cur.b, s) && !(cm.pruneEdge != nil && cm.pruneEdge(cur.b, s)) {
-				seen[s] = true
-				stack = append(stack, pt{s, 0})
+			if contradicts(cur.b, s) {
+				continue
+			}
+			if cm.notFoundEdge(cur.b, s) || cm.loopExitEdge(cur.b, s) || (cm.pruneEdge != nil && cm.pruneEdge(cur.b, s)) {
+				continue
+			}
+			ph := cur.ph
+			if ph == 0 && cm.resultPrune != nil && cm.resultPrune(cur.b, s) {
+				continue
+			}
+			if cm.resultCall != nil && s == cm.resultCall.Block() {
+				ph = 1 // the call runs again: its results are new
+			}
+			if !seenPh[ph][s] {
+				seenPh[ph][s] = true
+				stack = append(stack, pt{s, 0, ph})
 			}
 		}
 	}
@@ -672,9 +818,63 @@ func (cm *CoverModel) coveredFrom(in ssa.Instruction, b *ssa.BasicBlock, idx int
 
 // coveredWithNilResults: as covered, for a call site whose callee performed the mutation: the results
 // in nilRes are nil then, so the caller's branches on "result != nil" are not taken.
-func (cm *CoverModel) coveredWithNilResults(in ssa.Instruction, nilRes map[int]bool) bool {
+func (cm *CoverModel) coveredWithResults(in ssa.Instruction, nilRes map[int]bool, boolRes map[int]bool) bool {
 	call, ok := in.(*ssa.Call)
-	if !ok || len(nilRes) == 0 {
+	if !ok || len(boolRes) == 0 {
+		return cm.coveredWithNilResults(in, nilRes)
+	}
+	// boolean results with a fixed value after the mutation: branches on them cannot go the other way
+	fixed := map[ssa.Value]bool{}
+	if call.Call.Signature().Results().Len() == 1 {
+		if t, ok := boolRes[0]; ok {
+			fixed[call] = t
+		}
+	}
+	for _, rr := range referrers(call) {
+		if ex, ok := rr.(*ssa.Extract); ok {
+			if t, ok := boolRes[ex.Index]; ok {
+				fixed[ex] = t
+			}
+		}
+	}
+	boolPrune := func(a, b *ssa.BasicBlock) bool {
+		ifi, ok := a.Instrs[len(a.Instrs)-1].(*ssa.If)
+		if !ok {
+			return false
+		}
+		cond, neg := ifi.Cond, false
+		for {
+			u, isU := cond.(*ssa.UnOp)
+			if !isU || u.Op != token.NOT {
+				break
+			}
+			cond, neg = u.X, !neg
+		}
+		t, ok := fixed[cond]
+		if !ok {
+			// the result kept in a local cell (a named result of the caller) and re-loaded
+			for fv, ft := range fixed {
+				if sameStatus(cond, fv) {
+					t, ok = ft, true
+				}
+			}
+		}
+		if !ok {
+			return false
+		}
+		takenTrue := (a.Succs[0] == b) != neg
+		return takenTrue != t
+	}
+	return cm.coveredWithNilResultsAnd(in, nilRes, boolPrune)
+}
+
+func (cm *CoverModel) coveredWithNilResults(in ssa.Instruction, nilRes map[int]bool) bool {
+	return cm.coveredWithNilResultsAnd(in, nilRes, nil)
+}
+
+func (cm *CoverModel) coveredWithNilResultsAnd(in ssa.Instruction, nilRes map[int]bool, extra func(a, b *ssa.BasicBlock) bool) bool {
+	call, ok := in.(*ssa.Call)
+	if !ok || (len(nilRes) == 0 && extra == nil) {
 		return cm.covered(in)
 	}
 	var vals []ssa.Value
@@ -686,9 +886,26 @@ func (cm *CoverModel) coveredWithNilResults(in ssa.Instruction, nilRes map[int]b
 			vals = append(vals, ex)
 		}
 	}
-	old := cm.pruneEdge
-	cm.pruneEdge = func(a, b *ssa.BasicBlock) bool {
-		if old != nil && old(a, b) {
+	// a variable assigned from the result on this branch (`x, err = f()` in one arm of an if): the phi that merges it
+	// with the other arm has this value on every path that starts at the call
+	for _, v := range append([]ssa.Value{}, vals...) {
+		for _, r := range referrers(v) {
+			phi, ok := r.(*ssa.Phi)
+			if !ok {
+				continue
+			}
+			for i, e := range phi.Edges {
+				pr := phi.Block().Preds[i]
+				if e == v && (pr == call.Block() || call.Block().Dominates(pr)) {
+					vals = append(vals, phi)
+				}
+			}
+		}
+	}
+	oldP, oldC := cm.resultPrune, cm.resultCall
+	cm.resultCall = call
+	cm.resultPrune = func(a, b *ssa.BasicBlock) bool {
+		if extra != nil && extra(a, b) {
 			return true
 		}
 		for _, v := range vals {
@@ -698,7 +915,7 @@ func (cm *CoverModel) coveredWithNilResults(in ssa.Instruction, nilRes map[int]b
 		}
 		return false
 	}
-	defer func() { cm.pruneEdge = old }()
+	defer func() { cm.resultPrune, cm.resultCall = oldP, oldC }()
 	return cm.covered(in)
 }
 
@@ -765,8 +982,12 @@ func (cm *CoverModel) Uncovered(sel func(*MutSite) bool) []lifted {
 				continue
 			}
 			nilRes := nilResultsAfter(fr.in)
+			boolRes := boolResultsAfter(fr.in)
 			for _, c := range cs {
-				if cm.coveredWithNilResults(c.in, nilRes) {
+				if loaderExempt(c.caller) {
+					continue // a list/dictionary helper used by the snapshot loader: nothing to version or to mark dirty there
+				}
+				if cm.coveredWithResults(c.in, nilRes, boolRes) {
 					continue
 				}
 				ch := append(append([]string{}, fr.chain...), fmt.Sprintf("%s [%s]", fnName(c.caller), p.Pos(p.InstrPos(c.in))))
@@ -793,4 +1014,31 @@ func chainString(ch []string) string {
 		rev[len(ch)-1-i] = c
 	}
 	return " via " + strings.Join(rev, " -> ")
+}
+
+// dominatingTruths: truth values of branch conditions fixed by the edges that dominate block b.
+func dominatingTruths(b *ssa.BasicBlock) map[ssa.Value]bool {
+	out := map[ssa.Value]bool{}
+	fn := b.Parent()
+	for _, d := range fn.Blocks {
+		ifi, ok := d.Instrs[len(d.Instrs)-1].(*ssa.If)
+		if !ok || d == b || !d.Dominates(b) {
+			continue
+		}
+		for i, s := range d.Succs {
+			if len(s.Preds) != 1 || !(s == b || s.Dominates(b)) {
+				continue
+			}
+			cond, truth := ifi.Cond, i == 0
+			for {
+				u, isU := cond.(*ssa.UnOp)
+				if !isU || u.Op != token.NOT {
+					break
+				}
+				cond, truth = u.X, !truth
+			}
+			out[cond] = truth
+		}
+	}
+	return out
 }
